@@ -60,7 +60,7 @@ CHECKS = {
    text='Full stack from MIR with symbolic expiries, safety delta and policy delta; heights reach the plugin while the set is collected through the crate\'s own update_height (run as a task), each one a new tip or a stale height: '
         'at every pay call maxdelay is present and <= max(0, min expiry of the HTLCs registered when the lifecycle read the table - highest height processed by then - cltv_delta) and <= policy delta; an HTLC with relative expiry below the policy delta on a still-incomplete set never leads to pay.',
    design='4/C04', technique='symbolic execution of the real async stack from MIR under an explicit-state scheduler with partial-order reduction; SMT decides data; native replay over a fake node',
-   note=TRUST + '; bounds: 1x1 and 2x1 HTLCs x heights told (quick), 1x2, 2x2 (thorough).'),
+   note=TRUST + '; bounds: 1x1 and 2x1 HTLCs x heights told (quick), 1x2, 1x3, 2x1, and 2x2 with new tips only (thorough).'),
  'C07': dict(category='model_checking',
    text='Full stack from MIR: every resolution event hands the same response to every registered listener and leaves none behind; with symbolic fields, any HTLC that is rejecting (fee on declared total, '
         'relative expiry) on a still-incomplete set never leads to pay; two parts with conflicting trampoline info (different invoice string for one hash; same amountless invoice with different amount TLVs) '
